@@ -269,9 +269,32 @@ def uid_of(view):
     return None
 
 
-def render_plain(data, style):
+def render_plain(data, style, want=None):
+    """want given: every object mapping carries the explicit tag of its own
+    class (which changes nothing about what it is loaded as)."""
     from vlib import docs as D
-    return D.render(D.spec_of(data), style)
+    spec = D.spec_of(data)
+    if want is not None:
+        spec = tag_objects(spec, want)
+    return D.render(spec, style)
+
+
+def tag_objects(spec, want):
+    if spec[0] == 'seq':
+        return ['seq', [tag_objects(x, want) for x in spec[1]], spec[2]]
+    if spec[0] != 'map':
+        return spec
+    pairs = [[k, tag_objects(v, want)] for k, v in spec[1]]
+    tag = spec[2]
+    for k, v in spec[1]:
+        if k[0] == 's' and k[2] == 'uid' and v[0] == 's':
+            try:
+                cname = want.get(int(v[2]), (None,))[0]
+            except ValueError:
+                cname = None
+            if cname and cname != 'SK':
+                tag = '!' + cname
+    return ['map', pairs, tag]
 
 
 # ---------------------------------------------------------------------------
@@ -480,8 +503,10 @@ def run_case(ctx, params):
     docs.append((spec['doc_type'], top, 'positions'))
     tl = b.k_plain(lv[params.get('toplevel', 0) % len(lv)])
     docs.append((['cls', root], tl, 'toplevel'))
-    for doc_type, plain, pos in docs:
-        text = render_plain(plain, style)
+    tagged = [(dt, pl, pos + '-explicitly-tagged') for dt, pl, pos in docs]
+    for doc_type, plain, pos in docs + tagged:
+        text = render_plain(plain, style, b.want if pos.endswith(
+            '-explicitly-tagged') else None)
         try:
             load = m.load_fn(doc_type)
         except Exception as e:
@@ -936,7 +961,75 @@ def run_scalar_chain(ctx, p):
     ctx.case(p, True)
 
 
+def run_null_form(ctx):
+    """A class whose short form is "nothing" (null, or no node at all: an
+    empty document): recognised by its own _yatiml_recognize, turned into a
+    mapping by its savorizer.  The hooks run for it like for any node."""
+    from typing import List, Optional
+    log = []
+
+    class Defaults:
+        def __init__(self, a: int = 1) -> None:
+            self.a = a
+
+        @classmethod
+        def _yatiml_recognize(cls, node):
+            log.append(('recognize', cls.__name__))
+
+        @classmethod
+        def _yatiml_savorize(cls, node):
+            log.append(('savorize', cls.__name__))
+            if node.is_scalar(type(None)):
+                node.make_mapping()
+
+    class Holder:
+        def __init__(self, d: Defaults, e: int = 0) -> None:
+            self.d = d
+    load = yatiml.load_function(Defaults)
+    loadl = yatiml.load_function(List[Defaults], Defaults)
+    loadh = yatiml.load_function(Holder, Defaults)
+    for fn, text, n, what in (
+            (load, '', 1, 'empty document'),
+            (load, '# nothing here\n', 1, 'comment-only document'),
+            (load, '---\n', 1, 'document start only'),
+            (load, '~\n', 1, 'null'), (load, 'null\n', 1, 'null'),
+            (load, 'a: 3\n', 1, 'mapping'),
+            (loadl, '[~, {a: 2}, null]\n', 3, 'list of null forms'),
+            (loadl, '- \n- \n', 2, 'list of empty items'),
+            (loadh, 'd:\n', 1, 'empty attribute value'),
+            (loadh, 'd: ~\ne: 1\n', 1, 'null attribute value')):
+        del log[:]
+        case = {'null_form': True, 'text': text}
+        try:
+            v = fn(text)
+        except Exception as e:      # noqa
+            ctx.violation(
+                'C10 null-form load-failed %s' % type(e).__name__,
+                '%s (%r) raised %s: %s' % (what, text, type(e).__name__,
+                                           str(e)[-200:]), case)
+            continue
+        ctx.count('loads')
+        ctx.count('null_form_loads')
+        got = [k for k, _ in log if k == 'savorize']
+        if len(got) != n:
+            ctx.violation(
+                'C10 savorize %s null-form' % (
+                    'hook-skipped' if len(got) < n
+                    else 'called-more-than-once'),
+                '%s (%r): Defaults._yatiml_savorize ran %d times for %d '
+                'object(s); loaded %r' % (what, text, len(got), n, v), case)
+        objs = v if isinstance(v, list) else [
+            v.d if isinstance(v, Holder) else v]
+        if not all(isinstance(o, Defaults) for o in objs):
+            ctx.violation(
+                'C10 null-form wrong-class-constructed',
+                '%s (%r) loaded as %r' % (what, text, v), case)
+    ctx.case(['null-form'], True)
+
+
 def shard(ctx):
+    if ctx.shard == 0:
+        run_null_form(ctx)
     for i, p in enumerate(all_params(ctx.tier)):
         if not ctx.mine(i):
             continue
@@ -948,7 +1041,9 @@ def shard(ctx):
 
 
 def replay(ctx, case):
-    if case.get('scalar_chain'):
+    if case.get('null_form'):
+        run_null_form(ctx)
+    elif case.get('scalar_chain'):
         run_scalar_chain(ctx, case)
     else:
         run_case(ctx, case)
